@@ -1,10 +1,16 @@
 """C19 — backup and restore reproduce the replicated data with correct authorship.
 
+Part (ii) (restore over a live file): specs/RestoreLock.tla — the lock sequence of lock_all / restore against reader
+connections following SQLite's WAL and rollback locking and cache-validity rules, TLC exhaustive (whole reads, untouched
+on abort, exclusive copy, termination; dropping the WAL truncation or the wal-index reset must break it) — bound by a
+reader process looping during a real restore and by `vh restore-cache-probe` (reader connections that were idle during a
+real restore).  Known finding S14 (stale page cache of such connections) is the model's counter-example confirmed on
+the real command.
+
 Decided by: specs/BackupRestore.tla (site-ordinal table and per-cell author ordinals under Backup / Restore with and
 without keeping the destination's actor id; every initial ordinal assignment within the bounds, TLC exhaustive) bound
 to the real `corrosion backup` / `corrosion restore` commands (binary rebuilt from /repo): a source database built on
-real agents with cells authored by the source, a foreign actor and the destination itself plus a deletion; the ordinal
-tables of source, backup and both restored databases are compared with the model's Backup / Restore actions, and
+real agents with cells authored by the source, a foreign actor and the destination itself plus a deletion; the ordinal tables of source, backup and both restored databases are compared with the model's Backup / Restore actions, and
 crsql_changes with the authors' actor ids with the source's; a reader process loops on the destination database while
 the restore runs over it."""
 import json, os, subprocess, time
@@ -95,10 +101,93 @@ def judge(d):
     return f, m
 
 
+RL_CONFIGS = [
+    # (name, Wal, Quiescent, SameVers, invariants expected to hold, invariant expected to fail under S14)
+    ("wal-active", True, False, False, "C19_ReadsWhole C19_FreshReadsWhole C19_AbortUntouched C19_CopyExclusive", None),
+    ("wal-quiescent", True, True, False, "C19_FreshReadsWhole C19_AbortUntouched C19_CopyExclusive", "C19_ReadsWhole"),
+    ("rollback", False, True, False, "C19_ReadsWhole C19_FreshReadsWhole C19_AbortUntouched C19_CopyExclusive", None),
+    ("rollback-same-version-bytes", False, True, True, "C19_FreshReadsWhole C19_AbortUntouched C19_CopyExclusive", "C19_ReadsWhole"),
+]
+
+
+def rl_cfg(name, wal, qui, same, invs, fair=False, trunc=True, zero=True, readers=2):
+    c = os.path.join(vlib.scratch(), "rl_%s_%s.cfg" % (name, abs(hash(invs)) % 10000))
+    b = lambda x: "TRUE" if x else "FALSE"
+    open(c, "w").write('SPECIFICATION %s\nCONSTANTS\n Readers = {%s}\n Wal = %s\n Quiescent = %s\n SameVers = %s\n TruncateWal = %s\n ZeroShm = %s\n MaxTx = 2\nINVARIANTS %s\n%s'
+                       % ("FairSpec" if fair else "Spec", ", ".join('"r%d"' % i for i in range(1, readers + 1)), b(wal), b(qui), b(same), b(trunc), b(zero), invs, "PROPERTIES C19_Terminates\n" if fair else ""))
+    return c
+
+
+def lock_model(tier, s14_open):
+    """RestoreLock.tla: returns (states, mismatch list, model shows S14)"""
+    states, mm, shows = 0, [], False
+    for (name, wal, qui, same, holds, fails) in RL_CONFIGS:
+        r = vlib.run_tlc("RestoreLock.tla", rl_cfg(name, wal, qui, same, holds, fair=True, readers=2 if tier == "quick" else 3), workers=4, timeout=1500)
+        if r.error:
+            raise vlib.ToolError("TLC RestoreLock %s: %s\n%s" % (name, r.error, r.output[-1200:]))
+        states += r.distinct
+        if r.violated:
+            mm.append("RestoreLock.tla (%s) violates %s" % (name, r.violated))
+        if fails:
+            r2 = vlib.run_tlc("RestoreLock.tla", rl_cfg(name, wal, qui, same, fails), workers=4, timeout=1500)
+            if r2.error:
+                raise vlib.ToolError("TLC RestoreLock %s: %s" % (name, r2.error))
+            if r2.violated:
+                shows = True
+            elif s14_open:
+                vlib.log("[C19] note: RestoreLock.tla (%s) no longer violates %s" % (name, fails))
+    # the steps of the restore are needed: dropping one must break the model
+    for (trunc, zero) in ((False, True), (True, False)):
+        r = vlib.run_tlc("RestoreLock.tla", rl_cfg("drop", True, False, False, "C19_FreshReadsWhole", trunc=trunc, zero=zero), workers=4, timeout=900)
+        if not r.violated:
+            mm.append("RestoreLock.tla is vacuous: without %s the invariant still holds" % ("the WAL truncation" if not trunc else "the wal-index reset"))
+    return states, mm, shows
+
+
+def judge_cache(d, s14_open):
+    f, known = [], []
+    for c in d["cases"]:
+        label = "%s mode, %s" % (c["mode"], "old and new file of the same shape" if c["same_shape"] else "files of different size")
+        if not c["restore_ok"]:
+            f.append("restore over an idle reader connection failed (%s): %s" % (label, c["log"][-200:]))
+            continue
+        if c["c2_first_after"] != c["new"]:
+            f.append("a connection opened after the restore reads %s, not the new database %s (%s)" % (c["c2_first_after"], c["new"], label))
+        for k in ("c1_after", "c1_again"):
+            v = c[k]
+            if v.startswith("REFUSED") or v in (c["old"], c["new"]):
+                continue
+            text = "a connection opened before the restore reads neither the old (%s) nor the new (%s) database afterwards: %s (%s)" % (c["old"], c["new"], v, label)
+            in_sig = c["mode"] == "wal" or c["same_shape"]
+            if s14_open and in_sig:
+                known.append("S14 " + text)
+            else:
+                f.append(text)
+            break
+    return f, known
+
+
 def run(tier):
     t0 = time.time()
     violations, mismatch = [], []
+    known = []
+    s14_open = any(k["id"] == "S14" for k in vlib.open_findings(PID))
     build_bin()
+    lstates, lmm, model_shows = lock_model(tier, s14_open)
+    mismatch += lmm
+    vlib.log("[C19] TLC RestoreLock: %d distinct states over %d configurations; stale-cache counter-example present: %s" % (lstates, len(RL_CONFIGS), model_shows))
+    out = os.path.join(vlib.scratch(), "cp.json")
+    p = vlib.run_vh(["restore-cache-probe", BIN, out], timeout=600)
+    if p.returncode != 0:
+        raise vlib.ToolError("vh restore-cache-probe failed: %s" % p.stderr[-1500:])
+    cp = json.load(open(out))
+    fl, kn = judge_cache(cp, s14_open)
+    for t in fl[:4]:
+        rp = vlib.write_replay(PID, "cache", {"failure": t, "cases": cp["cases"]})
+        violations.append((t, rp))
+    known += kn[:1]
+    if s14_open and not kn:
+        vlib.log("[C19] note: known finding S14 did not show in this run")
     c = os.path.join(vlib.scratch(), "br.cfg")
     consts = 'Actors = {"a", "b", "c"}\n Cells = {1, 2}' if tier == "quick" else 'Actors = {"a", "b", "c", "d"}\n Cells = {1, 2, 3}'
     open(c, "w").write('SPECIFICATION Spec\nCONSTANTS\n %s\n NewActor = "fresh"\nINVARIANTS C19_Authorship C19_OrdinalsUnique C19_SelfAtZero\n' % consts)
@@ -131,12 +220,14 @@ def run(tier):
         raise vlib.ToolError("the concurrent reader never read successfully")
     cov = {"evaluations": rounds * 2, "distinct_nontrivial": rounds * 2,
            "rule": "per round: one source (own, foreign-authored and destination-authored cells, a deletion, an overwrite of a foreign cell, a membership row), one backup, a restore onto an absent database and a restore with --self-actor-id over the live database of a running agent with a reader process; %d successful concurrent reads, %d refused" % (reads, refused),
-           "samples": samples[:3], "exhaustive": False, "model_states": r.distinct}
+           "samples": samples[:3], "exhaustive": False, "model_states": r.distinct + lstates,
+           "lock_model": {"configurations": [c[0] for c in RL_CONFIGS], "distinct_states": lstates, "stale_cache_counterexample": model_shows},
+           "cache_probe": [{k: v for k, v in c.items() if k != "log"} for c in cp["cases"]]}
     vlib.write_evidence(PID, tier, LEVEL, cov, time.time() - t0, violations=len(violations), assumptions=[
         "one table shape (tests) and WAL journal mode only; rollback-journal sources and arbitrary schemas are not explored",
         "the reader's digest (row count, id sum, texts, clock rows) stands for 'entirely old or entirely new'",
         "the destination agent keeps its connections open during the restore but issues no writes"])
-    return {"violations": violations, "mismatch": mismatch}
+    return {"violations": violations, "mismatch": mismatch, "known": known}
 
 
 def replay(path):
